@@ -204,6 +204,7 @@ def _check_views(obj, led, viol):
     res = obj.storage_resolution
     n = 0
     stored0 = _snapshot(obj)
+    held = []            # objects handed out by earlier reads, kept (not copied) by the caller
 
     def cmp(kind, name, flag, tag=None):
         nonlocal n
@@ -217,6 +218,7 @@ def _check_views(obj, led, viol):
                          "reading %r at resolution %s raised %s" % (flag, res, e), None))
             return
         n += 1
+        held.append((kind, flag, got, exp))
         got = _as_array(got, shape)
         if got.shape != shape or not numpy.array_equal(got, exp):
             viol.append(("conservation/%s-view/at-%s" % (kind, res),
@@ -270,6 +272,16 @@ def _check_views(obj, led, viol):
             pass
     if _snapshot(obj) != stored0:
         viol.append(("read-changed-storage/at-%s" % res, "reading views changed the storage", None))
+    # sequences of reads: what an earlier read returned still is that view after all the later
+    # reads (nothing was added in between, nothing was written into the arrays)
+    for (kind, flag, ret, exp) in held:
+        now = _as_array(ret, shape)
+        if now.shape != shape or not numpy.array_equal(now, exp):
+            viol.append(("view-changed-by-later-read/%s-view/at-%s" % (kind, res),
+                         "the array returned for view %r at resolution %s turned into %s after "
+                         "later reads of other views; ledger says %s"
+                         % (flag, res, now.tolist(), exp.tolist()), None))
+            break
     return n
 
 
